@@ -69,7 +69,7 @@ def params_for(model, pv, inst=None):
         d = {ep.SIR.P_INFECTED: pv['pSeed'], ep.SIR.P_INFECT: pv['pInfect'], ep.SIR.P_REMOVE: pv['pRemove'], ep.SIRS.P_RESUSCEPT: pv['pAux']}
     elif model == 'SEIR':
         d = {ep.SEIR.P_EXPOSED: pv['pSeed'], ep.SEIR.P_INFECT_ASYMPTOMATIC: pv['pAux'], ep.SEIR.P_INFECT_SYMPTOMATIC: pv['pInfect'],
-             ep.SEIR.P_SYMPTOMS: pv['pRemove'], ep.SEIR.P_REMOVE: pv['pRemove']}
+             ep.SEIR.P_SYMPTOMS: pv.get('pSym', pv['pRemove']), ep.SEIR.P_REMOVE: pv['pRemove']}
     elif model == 'SIR_FixedRecovery':
         d = {ep.SIR.P_INFECTED: pv['pSeed'], ep.SIR.P_INFECT: pv['pInfect'], ep.SIR_FixedRecovery.T_INFECTED: pv['tInf']}
     elif model == 'SIS_FixedRecovery':
@@ -122,7 +122,8 @@ DY = [0.0, 0.125, 0.25, 0.5, 0.5, 0.75, 1.0]
 
 
 def gen_params(rnd, dynamics):
-    return {'pSeed': rnd.choice([0.125, 0.25, 0.5, 0.5]), 'pInfect': rnd.choice(DY[1:] + [1.0]), 'pRemove': rnd.choice(DY),
+    return {'pSeed': rnd.choice([0.125, 0.25, 0.5, 0.5]), 'pInfect': rnd.choice(DY[1:] + [1.0] + [0.0]), 'pRemove': rnd.choice(DY),
+            'pSym': rnd.choice(DY),
             'pAux': rnd.choice(DY), 'tInf': rnd.choice([0.5, 1.0, 1.5, 2.0]), 'eff': rnd.choice([0.0, 1.0, 0.5]),
             'off': rnd.choice([0.0, 0.5])}
 
@@ -478,6 +479,27 @@ def _dedup(v):
     return list(seen.values())
 
 
+def expected_registration(model, fn, pv):
+    """(undecorated locus name, probability) that build() must register the event function with, from the documented
+    meaning of each model's parameters; None for functions this table does not know"""
+    import epydemic as ep
+    S, I, E, O = ep.SIR, ep.SIS, ep.SEIR, ep.Opinion
+    t = {
+        'SIR': {'infect': (S.SI, pv['pInfect']), 'remove': (S.INFECTED, pv['pRemove'])},
+        'SIvR': {'infect': (S.SI, pv['pInfect']), 'remove': (S.INFECTED, pv['pRemove'])},
+        'SIRS': {'infect': (S.SI, pv['pInfect']), 'remove': (S.INFECTED, pv['pRemove']), 'resuscept': (S.REMOVED, pv['pAux'])},
+        'SIS': {'infect': (I.SI, pv['pInfect']), 'recover': (I.INFECTED, pv['pRemove'])},
+        'SEIR': {'infect': (E.SI, pv['pInfect']), 'infectAsymptomatic': (E.SE, pv['pAux']),
+                 'symptoms': (E.EXPOSED, pv.get('pSym', pv['pRemove'])), 'remove': (E.INFECTED, pv['pRemove'])},
+        'SIR_FixedRecovery': {'infect': (S.SI, pv['pInfect'])},
+        'SIS_FixedRecovery': {'infect': (I.SI, pv['pInfect'])},
+        'SIR_VariableInfection': {'remove': (S.INFECTED, pv['pRemove'])},
+        'Opinion': {'affect': (O.GP, pv['pInfect']), 'stifle': (O.PPT, pv['pRemove'])},
+        'Vaccinate': {'affect': (O.GP, pv['pInfect']), 'stifle': (O.PPT, pv['pRemove'])},
+    }
+    return t.get(model, {}).get(fn)
+
+
 def direct_c07(case, obs):
     if case.get('second') and not obs.get('skipped') and not obs.get('exception') and 'comps_by' in (obs.get('snaps') or [{}])[0]:
         return _dedup([v for c, o in views(case, obs) for v in direct_c07(dict(c, second=None), o)])
@@ -547,20 +569,32 @@ def direct_c07(case, obs):
         regs = [r for rs in obs['registration'].values() for r in rs if r['fn'] == 'infect']
         if not regs or any(r['kind'] != 'elem' for r in regs):
             v.append({'signature': 'infection-not-per-element:' + model, 'detail': regs})
+    # every registered event sits on the locus and carries the probability that the model's parameters prescribe
+    for r in obs['registration'].get(obs.get('primary_pi', 0), []):
+        exp = expected_registration(model, r['fn'], pv)
+        if exp is None:
+            continue
+        locus, p = exp
+        if r['locus'].split('@')[0] != locus or r['p'] != p:
+            v.append({'signature': 'registered-event-not-on-the-prescribed-locus-or-probability:%s:%s' % (model, r['fn']),
+                      'detail': {'registered': [r['locus'], r['p'], r['kind']], 'prescribed': [locus, p]}})
     # vaccine gate
     if model == 'SIvR':
         for en in obs['entries']:
             if en['fn'] != 'infect':
                 continue
-            vac, tv = en['vacc'] or (None, None)
-            effective = bool(vac) and (tv is not None) and (tv + pv['off'] < en['t'])
+            # vaccinated at set-up (time 0) by the harness: the truth comes from the case, not from the attributes the code wrote
+            vac, tv = (en['e'][0] in case.get('vacc', [])), 0.0
+            effective = bool(vac) and (tv + pv['off'] < en['t'])
             infected = en.get('ends_after') and en['ends_after'][0] == sp['I']
             if effective and pv['eff'] == 1.0 and infected:
                 v.append({'signature': 'vaccine-efficacy-1-did-not-protect', 'detail': en})
             if ((not effective) or pv['eff'] == 0.0) and not infected:
                 v.append({'signature': 'infection-blocked-without-effective-vaccine', 'detail': en})
     # quiescence
-    if case['dynamics'] == 'stochastic' and obs['time'] is not None and obs['time'] < case['maxtime'] and not obs['final'].get('pending'):
+    early_sync = (case['dynamics'] == 'synchronous' and model in ('Opinion', 'Vaccinate') and not case.get('seq') and not case.get('second')
+                  and obs['time'] is not None and obs['time'] < case['maxtime'])
+    if (case['dynamics'] == 'stochastic' or early_sync) and obs['time'] is not None and obs['time'] < case['maxtime'] and not obs['final'].get('pending'):
         nodes = obs['final']['nodes']
         comp = fin
         infl = snaps[0].get('infectivity', {})
@@ -587,7 +621,7 @@ def direct_c08(case, obs):
     if obs.get('skipped'):
         return []
     model = case['model']
-    if model in ('SIvR', 'Vaccinate'):
+    if model == 'SIvR':
         return []
     if case.get('second'):
         # two named instances share the undecorated tOccupied / tHitting attributes by the library's own declaration,
@@ -616,6 +650,10 @@ def direct_c08(case, obs):
         for n, t in first_inf.items():
             if nodes[n].get('tHitting') != t:
                 v.append({'signature': 'sis-hitting-time-not-first-infection:' + model, 'detail': {'node': n, 'tHitting': nodes[n].get('tHitting'), 'first': t}})
+        for n in nodes:
+            if n not in first_inf and nodes[n].get('tHitting') is not None:
+                v.append({'signature': 'never-infected-node-has-hitting-time:' + model, 'detail': {'node': n, 'tHitting': nodes[n].get('tHitting')}})
+                break
         return _dedup(v)
     # forest
     parent = {n: n for n in nodes}
